@@ -1,6 +1,8 @@
 package engine
 
 import (
+	"bytes"
+
 	"github.com/cockroachdb/pebble"
 	"github.com/youzan/ZanRedisDB/common"
 )
@@ -59,6 +61,11 @@ func (it *pebbleIterator) Seek(key []byte) {
 }
 
 func (it *pebbleIterator) SeekForPrev(key []byte) {
+	// seek to the last key that less than or equal to the target key,
+	// SeekLT alone would skip the target key itself
+	if it.Iterator.SeekGE(key) && bytes.Equal(it.Iterator.Key(), key) {
+		return
+	}
 	it.Iterator.SeekLT(key)
 }
 
